@@ -102,6 +102,9 @@ def parse_operand(s):
             if "*" in t:
                 r, sc = t.split("*")
                 o.index, o.scale = r.strip(), int(sc, 0)
+                continue
+            elif re.match(r"^[xyz]mm\d+$", t):
+                o.index = t     # VSIB (gathers): decoded by the gather handler itself
             elif t in REGMAP or t == "rip":
                 if o.base is None:
                     o.base = t
